@@ -900,6 +900,33 @@ def rule_bytes(ctx: Ctx) -> RuleReport:
                              f"`{b}` takes one text part and ignores the others (`{short(w.test if first_only else w, 60)}`): in a message laid out text / inline image / text the text after the image is missing from the body (the .eml reader joins all parts)", line=w.lineno))
         else:
             rep.ok({"mbox_body": b, "parts": "accumulated"})
+    # (h) character translation tables: in a dict display a `**{...}` part that follows explicit entries wins over them
+    n_tab = 0
+    for m_ in ctx.p.modules.values():
+        if "/tests/" in m_.rel or not m_.rel.startswith(X):
+            continue
+        for d in ast.walk(m_.tree):
+            if not (isinstance(d, ast.Dict) and any(k is None for k in d.keys)):
+                continue
+            n_tab += 1
+            seen = {}
+            for k, v in zip(d.keys, d.values):
+                if k is not None:
+                    kv = ctx.folder.fold(m_, k)
+                    if kv is not UNKNOWN:
+                        seen[kv] = (ctx.folder.fold(m_, v), k)
+                    continue
+                spread = ctx.folder.fold(m_, v)
+                if not isinstance(spread, dict):
+                    continue
+                lost = [(kk, seen[kk]) for kk in spread if kk in seen and seen[kk][0] is not UNKNOWN and seen[kk][0] != spread[kk]]
+                if lost:
+                    kk, (val, knode) = lost[0]
+                    rep.fail(Finding("C02-BYTES", m_.rel, "<module>", f"dict display: {len(lost)} explicit entries overridden by a later ** part", f"the explicit entry {kk!r}: {val!r} (and {len(lost) - 1} more) is overridden by the `**` part that follows it in the same dict display, which maps {kk!r} to {spread[kk]!r}: paragraph / line separators listed as 'becomes a newline' are deleted instead and the pieces of text they separate are glued together", line=knode.lineno))
+                else:
+                    rep.ok({"dict_display": f"{m_.rel.split('/')[-1]}:{d.lineno}", "overrides": 0})
+    if n_tab < 1:
+        raise AnalysisError("C02-BYTES: no dict display with a ** part found (the PPT control-character table was confirmed)")
     # (c) plain text: the detector judges the whole input; the text is what the detector decoded; lossy decoding only after it failed
     dd = ctx.p.func(PLAIN, "_detect_and_decode")
     rep.unit(dd.key)
